@@ -35,6 +35,41 @@ def rfc_rds(path):
 	return out
 
 
+def rfc_rds_long(path):
+	"""5.2.4 remove_dot_segments again, the same steps A-E on an index into the input and a list of output pieces
+	instead of string slicing (linear time: for the inputs of 10^4 .. 10^5 octets); cross-checked against rfc_rds
+	on every short input the harness generates"""
+	i, n, out = 0, len(path), []
+	while i < n:
+		if path.startswith('../', i):                      # A
+			i += 3
+		elif path.startswith('./', i):                     # A
+			i += 2
+		elif path.startswith('/./', i):                    # B: "/./" -> "/"
+			i += 2
+		elif i == n - 2 and path.startswith('/.', i):       # B: "/." (complete segment) -> "/"
+			out.append('/')
+			i = n
+		elif path.startswith('/../', i):                   # C: "/../" -> "/", drop the last output segment
+			i += 3
+			if out:
+				out.pop()
+		elif i == n - 3 and path.startswith('/..', i):      # C: "/.." (complete segment) -> "/"
+			if out:
+				out.pop()
+			out.append('/')
+			i = n
+		elif n - i <= 2 and path[i:] in ('.', '..'):        # D
+			i = n
+		else:                                              # E: first segment including an initial "/" up to the next "/"
+			j = path.find('/', i + 1)
+			if j < 0:
+				j = n
+			out.append(path[i:j])
+			i = j
+	return ''.join(out)
+
+
 APPENDIX_B = re.compile(r'^(([^:/?#]+):)?(//([^/?#]*))?([^?#]*)(\?([^#]*))?(#(.*))?', re.S)
 
 
